@@ -27,6 +27,12 @@ def get_world(plan):
         w.uf_mul = plan.get('uf_mul', False)
         w.feas_reduced = plan.get('feas_reduced', False)
         w.seq_in_spec = plan.get('seq_in_spec', {})
+        if plan.get('no_smt2'):
+            # z3 5.1 crashes (segmentation fault in Z3_benchmark_to_smtlib_string) when the formulas of this plan are
+            # printed as SMT-LIB text: no fresh-context re-check and no second back end for it
+            from pyvc import interp as _I
+            _I.FRESH_CTX = False
+            _I.OLD_Z3 = '/nonexistent'
         for extra in plan.get('models', []):
             importlib.import_module(extra).declare(w)
         for m in plan['specs']:
@@ -243,8 +249,36 @@ def main(argv=None):
     # ---- deductive part ----
     results = []
     if targets:
-        with mp.Pool(min(args.jobs, max(1, len(targets))), initializer=_init_worker, initargs=(pid, tier)) as pool:
-            results = pool.map(_verify_one, targets, chunksize=1)
+        # a worker that dies (a crash inside the solver library) must not hang the check: ProcessPoolExecutor reports a
+        # broken pool, mp.Pool.map would wait for the lost task for ever.  A crashed target is a checker error (exit 3).
+        from concurrent.futures import ProcessPoolExecutor
+        from concurrent.futures.process import BrokenProcessPool
+        results = []
+        todo = list(targets)
+        for attempt in range(3):
+            if not todo:
+                break
+            done = {}
+            try:
+                with ProcessPoolExecutor(min(args.jobs, max(1, len(todo))), initializer=_init_worker,
+                                         initargs=(pid, tier)) as ex:
+                    futs = {q: ex.submit(_verify_one, q) for q in todo}
+                    for q, f in futs.items():
+                        try:
+                            done[q] = f.result()
+                        except BrokenProcessPool:
+                            pass
+            except BrokenProcessPool:
+                pass
+            results.extend(done[q] for q in todo if q in done)
+            todo = [q for q in todo if q not in done]
+        for q in todo:
+            results.append({'function': q, 'status': 'error', 'message': 'worker process died (crash in the solver library) '
+                            'three times', 'paths': 0, 'normal_paths': 0, 'raise_paths': {}, 'obligations': 0,
+                            'discharged': 0, 'failed': [], 'unknown': [], 'secs': 0.0, 'solver_secs': 0.0,
+                            'source_hash': '', 'all_obligations': []})
+        order = {q: i for i, q in enumerate(targets)}
+        results.sort(key=lambda j: order.get(j['function'], 0))
     # ---- custom (syntactic frame) obligations of the plan ----
     for name in plan.get('custom', []):
         modname, fname = name.rsplit('.', 1)
